@@ -58,13 +58,24 @@ def cmp_full(fields=(0, 1, 3, 4, 5, 6, 7, 8), ctxs=None):
             b = [e for e in ro.events[k] if ctxs is None or e[2] in ctxs]
             if a != b:
                 return ("events-differ-from-reference", "tick %d events %r, reference %r" % (k, a, b))
-            for x, y in zip(rr.ticks[k]["framers"], ro.ticks[k]["framers"]):
+            realby = {x[0]: x for x in rr.ticks[k]["framers"]}
+            refnames = set()
+            for y in ro.ticks[k]["framers"]:
+                refnames.add(y[0])
+                x = realby.get(y[0])
+                if x is None:
+                    return ("framer-missing", "tick %d framer %s exists in the reference but not in ioflo" % (k, y[0]))
                 xa = tuple(tuple(x[i]) if isinstance(x[i], (list, tuple)) else x[i] for i in fields)
                 ya = tuple(tuple(y[i]) if isinstance(y[i], (list, tuple)) else y[i] for i in fields)
                 if xa != ya:
                     return ("state-differs-from-reference", "tick %d snapshot fields %r: %r, reference %r" % (k, fields, xa, ya))
-            if rr.ticks[k]["shares"] != ro.ticks[k]["shares"]:
-                return ("shares-differ-from-reference", "tick %d shares %r, reference %r" % (k, rr.ticks[k]["shares"], ro.ticks[k]["shares"]))
+            for x in rr.ticks[k]["framers"]:
+                if x[0] not in refnames and (x[4] is not None or x[5]):
+                    return ("unexpected-live-framer", "tick %d framer %s (moot or razed in the reference) has active frames %r" % (k, x[0], x[5]))
+            rs = {p_: v for p_, v in rr.ticks[k]["shares"].items()
+                  if p_ in ro.ticks[k]["shares"] or v[1] is not None}   # shares only pre-created at resolve time (never written) are ignored
+            if rs != ro.ticks[k]["shares"]:
+                return ("shares-differ-from-reference", "tick %d shares %r, reference %r" % (k, rs, ro.ticks[k]["shares"]))
             if rr.ticks[k].get("marks") != ro.ticks[k].get("marks"):
                 return ("marks-differ-from-reference", "tick %d marks %r, reference %r" % (k, rr.ticks[k].get("marks"), ro.ticks[k].get("marks")))
         if len(rr.ticks) != len(ro.ticks):
@@ -78,7 +89,7 @@ def cmp_full(fields=(0, 1, 3, 4, 5, 6, 7, 8), ctxs=None):
 
 
 def explore_and_check(p, idx, label, prog, mons=(), cmp=None, depth=None, alphabet=None, back_alphabet=None,
-                      watch=(), sample_every=499, outcome=None):
+                      watch=(), sample_every=499, outcome=None, canon_paths=None):
     """BFS over env histories of one program; monitors mons: fn(prog, rr, envf) -> [(group, detail)];
     cmp(rr, ro) -> None | (group, detail) against the reference interpreter."""
     from mc.flo import explore, families as F, lang, conform
@@ -117,7 +128,7 @@ def explore_and_check(p, idx, label, prog, mons=(), cmp=None, depth=None, alphab
         return False
 
     st = explore.explore(prog, alphabet or F.ENV_ALPHABET, depth=depth or (6 if core.TIER == "quick" else 8),
-                         on_run=on_run, back_alphabet=back_alphabet, watch=watch)
+                         on_run=on_run, back_alphabet=back_alphabet, watch=watch, canon_paths=canon_paths)
     p.states += st["states"]
     p.transitions += st["transitions"]
     p.traces += st["runs"]
